@@ -44,7 +44,7 @@ def _tag_app():
     return tagapp_C19.c19_tag
 
 
-def pipeline_action(indir, outdir, mode, fail_ids, callsfile, soft_k, store="dir"):
+def pipeline_action(indir, outdir, mode, fail_ids, callsfile, soft_k, store="dir", idopt="default"):
     def action():
         import multiprocessing.process as mpp
 
@@ -73,17 +73,21 @@ def pipeline_action(indir, outdir, mode, fail_ids, callsfile, soft_k, store="dir
             out.write = wrap(out.write)
             out.write_not_completed = wrap(out.write_not_completed)
         loader = get_app("load_aligned", format="fasta", moltype="dna")
-        if store == "sqlite":
-            writer = get_app("write_db", data_store=out)
-        else:
-            writer = get_app("write_seqs", data_store=out, format="fasta")
         import tagapp_C19
+
+        # where the id_from_source option is given: left out / to apply_to / to the writer's constructor / to both
+        wkw = {"id_from_source": tagapp_C19.custom_writer_id} if idopt in ("writer", "both") else {}
+        akw = {"id_from_source": tagapp_C19.custom_apply_id} if idopt in ("apply_to", "both") else {}
+        if store == "sqlite":
+            writer = get_app("write_db", data_store=out, **wkw)
+        else:
+            writer = get_app("write_seqs", data_store=out, format="fasta", **wkw)
 
         tag = tagapp_C19.c19_tag_ser if store == "sqlite" else tagapp_C19.c19_tag
         app = loader + tag(fail_ids=fail_ids, callsfile=str(callsfile)) + writer
         ins = open_data_store(indir, suffix="fasta")
         try:
-            app.apply_to(ins, show_progress=False)
+            app.apply_to(ins, show_progress=False, **akw)
         finally:
             if store == "sqlite":
                 out.close()
@@ -124,7 +128,8 @@ def store_snapshot(outdir: Path, store="dir"):
     return snap
 
 
-def rec_state(snap, ref, i, isnc, store="dir"):
+def rec_state(snap, ref, i, isnc, store="dir", prefix=""):
+    i = prefix + i  # the record's name as the spec's RecordsNamedBy says
     if store == "sqlite":
         # one row per input holds the record, its checksum and the completed flag; written by one statement
         if i not in snap:
@@ -151,6 +156,7 @@ def scenario(job):
     """one interrupted run + re-run; returns raw observations"""
     indir, n, fail_ids, kind, k, scratch = job[:6]
     store = job[6] if len(job) > 6 else "dir"
+    idopt = job[8] if len(job) > 8 else "default"
     root = Path(tempfile.mkdtemp(prefix="resume-", dir=scratch))
     try:
         o = root / "o"
@@ -158,19 +164,19 @@ def scenario(job):
         outdir = o / "out"
         c1, c2 = root / "calls1.txt", root / "calls2.txt"
         if kind == "none":
-            st1, ev1, end1 = faults.run_in_child(o, outdir, 0, "dry", root / "log1", pipeline_action(indir, outdir, "w", fail_ids, c1, None, store), timeout=120)
-            return {"kind": kind, "k": k, "store": store, "fail_ids": fail_ids, "status1": st1, "end1": end1, "nbound": len(ev1),
+            st1, ev1, end1 = faults.run_in_child(o, outdir, 0, "dry", root / "log1", pipeline_action(indir, outdir, "w", fail_ids, c1, None, store, idopt), timeout=120)
+            return {"kind": kind, "k": k, "store": store, "idopt": idopt, "fail_ids": fail_ids, "status1": st1, "end1": end1, "nbound": len(ev1),
                     "events": [(e["role"], e["raw"]) for e in ev1], "calls1": read_calls(c1), "ref": store_snapshot(outdir, store)}
         if kind == "soft":
-            st1, ev1, end1 = faults.run_in_child(o, outdir, 0, "dry", root / "log1", pipeline_action(indir, outdir, "w", fail_ids, c1, k, store), timeout=120)
+            st1, ev1, end1 = faults.run_in_child(o, outdir, 0, "dry", root / "log1", pipeline_action(indir, outdir, "w", fail_ids, c1, k, store, idopt), timeout=120)
         elif kind == "fault":
-            st1, ev1, end1 = faults.run_in_child(o, outdir, k, "fault", root / "log1", pipeline_action(indir, outdir, "w", fail_ids, c1, None, store), timeout=120, variant=job[7])
+            st1, ev1, end1 = faults.run_in_child(o, outdir, k, "fault", root / "log1", pipeline_action(indir, outdir, "w", fail_ids, c1, None, store, idopt), timeout=120, variant=job[7])
         else:
-            st1, ev1, end1 = faults.run_in_child(o, outdir, k, "kill", root / "log1", pipeline_action(indir, outdir, "w", fail_ids, c1, None, store), timeout=120)
+            st1, ev1, end1 = faults.run_in_child(o, outdir, k, "kill", root / "log1", pipeline_action(indir, outdir, "w", fail_ids, c1, None, store, idopt), timeout=120)
         at = store_snapshot(outdir, store)
         where = next((e["raw"] for e in ev1 if e["i"] == k), None) if kind in ("kill", "fault") else f"store write #{k}"
-        st2, ev2, end2 = faults.run_in_child(o, outdir, 0, "dry", root / "log2", pipeline_action(indir, outdir, "a", fail_ids, c2, None, store), timeout=120)
-        return {"kind": kind, "k": k, "store": store, "fail_ids": fail_ids, "status1": st1, "end1": end1, "where": where, "at": at,
+        st2, ev2, end2 = faults.run_in_child(o, outdir, 0, "dry", root / "log2", pipeline_action(indir, outdir, "a", fail_ids, c2, None, store, idopt), timeout=120)
+        return {"kind": kind, "k": k, "store": store, "idopt": idopt, "fail_ids": fail_ids, "status1": st1, "end1": end1, "where": where, "at": at,
                 "status2": st2, "end2": end2, "calls1": read_calls(c1), "calls2": read_calls(c2), "final": store_snapshot(outdir, store)}
     finally:
         shutil.rmtree(root, ignore_errors=True)
@@ -260,12 +266,40 @@ def check_resume(run, scratch: Path, models):
                 ref = base if not ncs else scenario((indir, n, fail_ids, "none", 0, str(work), store))
                 if ref["status1"] != "exited" or ref["end1"]["end"] != "ok" or ref["calls1"] != order:
                     raise RuntimeError(f"uninterrupted apply_to ({store}) with failing inputs {fail_ids}: {ref['status1']} {ref['end1']} {ref['calls1']}")
-                plans.append((store, ncs, fail_ids, ref))
+                plans.append((store, "default", ncs, fail_ids, ref))
+        # the id_from_source option given to apply_to / to the writer / to both: the spec says which function names the
+        # records (RecordsNamedBy); the uninterrupted run must have named them so, then the interrupted prefixes are re-run
+        namedby = {}
+        for rec in model:
+            namedby[rec["from"]["idopt"]] = rec["from"]["namedby"]
+        import tagapp_C19
+
+        prefix_of = {o: (tagapp_C19.APPLY_PREFIX if nb == "apply_to_argument" else "") for o, nb in namedby.items()}
+        for store in STORES:
+            for idopt in sorted(o for o in namedby if o != "default"):
+                for ncs in ncsets[:2]:
+                    fail_ids = tuple(order[p - 1] for p in ncs)
+                    ref = scenario((indir, n, fail_ids, "none", 0, str(work), store, None, idopt))
+                    if ref["status1"] != "exited" or ref["end1"]["end"] != "ok" or ref["calls1"] != order:
+                        raise RuntimeError(f"uninterrupted apply_to ({store}, id_from_source given to {idopt}): {ref['status1']} {ref['end1']} {ref['calls1']}")
+                    expected = {prefix_of[idopt] + i for i in order}
+                    if store == "dir":
+                        got = {Path(k).name.rsplit(".", 1)[0] for k in ref["ref"] if not k.startswith("md5/")}
+                    else:
+                        got = set(ref["ref"])
+                    stats[f"{store}:naming"] += 1
+                    if got != expected:
+                        run.fail(f"resume{'' if store == 'dir' else '-' + store}:id_from_source={idopt}:uninterrupted:records-not-named-by-{namedby[idopt]}",
+                                 {"store": store, "id_from_source_given_to": idopt, "records_named_by": namedby[idopt], "expected_record_ids": sorted(expected),
+                                  "stored_record_ids": sorted(got), "failing_inputs": list(fail_ids)},
+                                 what=f"apply_to stored the records as {sorted(got)}, the id_from_source of {namedby[idopt]} makes {sorted(expected)}")
+                        continue
+                    plans.append((store, idopt, ncs, fail_ids, ref))
         jobs = []
-        for store, ncs, fail_ids, ref in plans:
+        for store, idopt, ncs, fail_ids, ref in plans:
             for k in range(1, n + 1):
-                jobs.append((indir, n, fail_ids, "soft", k, str(work), store))
-            if store == "sqlite":
+                jobs.append((indir, n, fail_ids, "soft", k, str(work), store, None, idopt))
+            if store == "sqlite" or idopt != "default":
                 continue  # sqlite: interruption between store writes only (no process kill inside sqlite's own I/O)
             for k in range(1, ref["nbound"] + 1):
                 raw = ref["events"][k - 1][1]
@@ -276,16 +310,20 @@ def check_resume(run, scratch: Path, models):
                 role = ref["events"][k - 1][0]
                 jobs.append((indir, n, fail_ids, "fault", k, str(work), store, "ENOSPC:once" if role in ("write", "close") else "EIO:once"))
         results = pool.map(scenario, jobs, chunksize=1)
-    refs = {(store, fail_ids): (ncs, ref) for store, ncs, fail_ids, ref in plans}
+    refs = {(store, idopt, fail_ids): (ncs, ref) for store, idopt, ncs, fail_ids, ref in plans}
     observed = set()
     for r in results:
         store = r["store"]
-        ncs, ref = refs[(store, r["fail_ids"])]
+        idopt = r["idopt"]
+        ncs, ref = refs[(store, idopt, r["fail_ids"])]
+        pre_ = prefix_of[idopt]
         stats[f"{store}:{r['kind']}"] += 1
+        if idopt != "default":
+            stats["id_from_source_option_scenarios"] += 1
         refsnap = ref["ref"]
         isnc = {i: (i in r["fail_ids"]) for i in order}
-        at = [rec_state(r["at"], refsnap, i, isnc[i], store) for i in order]
-        fin = [rec_state(r["final"], refsnap, i, isnc[i], store) for i in order]
+        at = [rec_state(r["at"], refsnap, i, isnc[i], store, pre_) for i in order]
+        fin = [rec_state(r["final"], refsnap, i, isnc[i], store, pre_) for i in order]
         calls2 = r["calls2"]
         raised = not (r["status2"] == "exited" and r["end2"]["end"] == "ok")
         expected_status1 = "killed" if r["kind"] == "kill" else "exited"
@@ -293,6 +331,7 @@ def check_resume(run, scratch: Path, models):
             raise RuntimeError(f"resume scenario {store} {r['kind']}@{r['k']}: run 1 ended {r['status1']} {r['end1']}")
         detail = {
             "store": {"dir": "DataStoreDirectory + write_seqs", "sqlite": "DataStoreSqlite + write_db"}[store],
+            "id_from_source_given_to": idopt,
             "inputs_in_processing_order": order,
             "failing_inputs": list(r["fail_ids"]),
             "interrupt": r["kind"],
@@ -307,6 +346,8 @@ def check_resume(run, scratch: Path, models):
             "store_uninterrupted": sorted(refsnap),
         }
         pfx = "resume" if store == "dir" else f"resume-{store}"
+        if idopt != "default":
+            pfx += f":id_from_source={idopt}"
         bad = False
         if raised:
             exc = (detail["rerun_exception"] or r["status2"]).split(":")[0]
@@ -349,7 +390,8 @@ def check_resume(run, scratch: Path, models):
     for m in missing:
         run.model_drift(f"resume counterexample of the transcribed model not reproduced on the real code: {m}")
     run.note("resume_scenarios", dict(stats))
-    run.note("resume_boundaries_per_run", {f"{store}:{list(ncs)}": ref["nbound"] for store, ncs, _, ref in plans})
+    run.note("resume_boundaries_per_run", {f"{store}:{list(ncs)}": ref["nbound"] for store, idopt, ncs, _, ref in plans if idopt == "default"})
+    run.note("id_from_source_records_named_by", namedby)
     nsc = sum(v for k, v in stats.items() if k.endswith((":soft", ":kill", ":fault")))
     run.cov["evaluations"] += nsc
     run.cov["distinct_nontrivial"] += nsc
